@@ -62,6 +62,41 @@ def makeGrid (east north : CoordArr) (extras : List Arr2) (data : Option (List A
   if !((extras ++ dArrs).all fun a => isRect a n1.length e1.length) then Except.error Err.valueError
   pure ⟨dims, e1, n1, exNames.zip extras, dNames.zip dArrs⟩
 
+/-! Primitives the translation of `make_xarray_grid` / `meshgrid_to_1d` (Gen/MakeGrid.lean) is written in. -/
+def CoordArr.toArr2 : CoordArr → Arr2
+  | .d2 a => a
+  | .d1 v => [v]
+/-- The common number of dimensions of the two horizontal coordinate arrays (`get_ndim_horizontal_coords`; `ValueError` if they differ). -/
+def ndimHorizontal (xy : List CoordArr) : Except Err Nat :=
+  match xy with
+  | [.d1 _, .d1 _] => .ok 1
+  | [.d2 _, .d2 _] => .ok 2
+  | [_, _] => .error .valueError
+  | _ => .error .typeError
+/-- `check_coordinates(coordinates)` for 2-D arrays: every array has the shape of the first. -/
+def checkCoordinates2 (cs : List CoordArr) : Except Err Unit :=
+  match cs with
+  | [] => .error .other      -- `shapes[0]` of nothing: IndexError
+  | c0 :: rest =>
+    if isRect c0.toArr2 c0.toArr2.length (ncols c0.toArr2) && rest.all (fun x => isRect x.toArr2 c0.toArr2.length (ncols c0.toArr2))
+    then .ok () else .error .valueError
+/-- `check_meshgrid(coordinates)`: the first array is constant along its columns' direction, the second along its rows'. -/
+def checkMeshgridE (cs : List CoordArr) : Except Err Unit :=
+  if checkMeshgrid (cs.getD 0 (.d1 [])).toArr2 (cs.getD 1 (.d1 [])).toArr2 then .ok () else .error .valueError
+/-- `a[0, :]` and `a[:, 0]` of a 2-D array. -/
+def firstRow (a : CoordArr) : List Rat := a.toArr2.headD []
+def firstCol (a : CoordArr) : List Rat := a.toArr2.map fun row => row.headD 0
+/-- `xr.Dataset(data_vars, coords)` as `make_xarray_grid` calls it: `index` holds the two index coordinates by dimension name, `extra` the
+    non-index coordinates and `vars` the data variables, all on `dims`; xarray refuses an array whose shape is not
+    `(len(coords[dims[0]]), len(coords[dims[1]]))` and index coordinates that are not 1-D. -/
+def xrDataset (dims : String × String) (index : List (String × CoordArr)) (extra : List (String × Arr2)) (vars : Option (List (String × Arr2))) :
+    Except Err Dataset :=
+  match ((index.find? (·.1 == dims.2)).map (·.2) : Option CoordArr), ((index.find? (·.1 == dims.1)).map (·.2) : Option CoordArr) with
+  | some (CoordArr.d1 e), some (CoordArr.d1 n) =>
+    if !((extra.map (·.2) ++ (vars.getD []).map (·.2)).all fun a => isRect a n.length e.length) then .error .valueError
+    else .ok ⟨dims, e, n, extra, vars.getD []⟩
+  | _, _ => .error .valueError
+
 /-! Primitives the statement-by-statement translation of `grid_to_table` (Gen/Grid.lean) is written in: the xarray container seen through
     look-ups by name. -/
 /-- `grid[name].values` for a data variable. -/
